@@ -11,6 +11,7 @@ G  every (table, invocation) of the catalogues: CMacro.Expand (Prosser's algorit
 """
 import os
 import random
+import re
 import subprocess
 
 from .. import core, runner
@@ -80,7 +81,10 @@ def real_expand(case, via):
 
 
 def norm(sps):
-    return "".join(sps).replace(" ", "")
+    """the token sequence itself: token boundaries matter (1 2 is not 12) and string literals are compared
+    character by character (the invocation is rendered with exactly one space between tokens, so ISO C
+    fixes the white space inside a stringified argument)"""
+    return tuple(t if t.startswith('"') else t.replace(" ", "") for t in sps if t != "")
 
 
 def check_chunk(args):
@@ -157,6 +161,13 @@ def _jobs(js):
     return [check_chunk(j) for j in js]
 
 
+TOK_RE = re.compile(r'"(?:\\.|[^"\\])*"|\'(?:\\.|[^\'\\])*\'|[A-Za-z_]\w*|\d[\w.]*|##|<<|>>|[<>=!]=|&&|\|\||[^\s\w]')
+
+
+def gcc_tokens(text):
+    return TOK_RE.findall(text)
+
+
 def gcc_validate(ctx, cases, limit, seed):
     rnd = random.Random(seed)
     pick = cases if len(cases) <= limit else rnd.sample(cases, limit)
@@ -171,7 +182,7 @@ def gcc_validate(ctx, cases, limit, seed):
             # gcc accepts what the reference calls ill-formed, or diagnoses what it accepts
             dis += 1
             continue
-        if ok and norm(p.stdout.split("\n")) != norm(c["out"]):
+        if ok and norm(gcc_tokens(p.stdout)) != norm(c["out"]):
             dis += 1
     ctx.cov["oracle_checks_gcc"] = n
     ctx.cov["oracle_disagreements"] = dis
